@@ -143,6 +143,33 @@ def gen_sweep(io=False):
     return behs
 
 
+def gen_exactfill(io=False):
+    """Finished frames fill the writer storage exactly, a partial flush frees its front, further messages follow:
+    the encoder then continues in the part before the offset while the finished data ends at the storage end
+    (second branch of mpt_queue_push), which neither the replay shapes (2 messages) nor a growing queue reach."""
+    behs = []
+    for kind in (KINDS[:4] if io else KINDS):
+        for cap in (8, 16, 32):
+            half = cap // 2 - 2                      # a message of n non-zero bytes (n small) makes a frame of n + 2
+            for k in (1, 2, 3, cap // 2, cap - 2, cap - 1):
+                beh = [{"a": "init", "arg": {"kind": kind, "wcap": cap, "woff": 0, "rcap": cap, "roff": 3, "grow": 2}}]
+                for m in ([11] * half, [12] * half):
+                    beh += [{"a": "start", "arg": {"data": m}}, {"a": "push", "arg": {"n": len(m)}}, {"a": "end", "arg": {"x": 0}}]
+                beh.append({"a": "flush", "arg": ({"n": ALL, "via": "flush"} if io else {"n": k})})
+                for m in ([7, 0, 8], [], [9] * min(k, 3)):
+                    beh.append({"a": "start", "arg": {"data": m}})
+                    if m:
+                        beh.append({"a": "push", "arg": {"n": len(m)}})
+                    beh.append({"a": "end", "arg": {"x": 0}})
+                    if not io:
+                        beh.append({"a": "flush", "arg": {"n": 1}})
+                beh += [{"a": "flush", "arg": ({"n": ALL, "via": "flush"} if io else {"n": ALL})}, {"a": "deliver", "arg": {"n": ALL}}]
+                for _ in range(6):
+                    beh += [{"a": "recv", "arg": {"x": 0}}, {"a": "deliver", "arg": {"n": ALL}}]
+                behs.append(beh)
+    return behs
+
+
 def gen_backpressure():
     """mptio variant: more finished data than the socket takes while the peer does not read (short writes, EAGAIN)."""
     behs = []
@@ -214,7 +241,7 @@ def run(tier):
         raise vlib.MachineryError("no behaviours exported")
 
     # B: recorded runs with the shipped codecs validated by TLC
-    hist = gen_sweep() + gen_histories(ck, cfg["nhist"], cfg["nmsg"])
+    hist = gen_sweep() + gen_exactfill() + gen_histories(ck, cfg["nhist"], cfg["nmsg"])
     recs2, _ = vlib.run_driver(exe, vlib.to_script(hist), timeout=1200)
     events = vlib.merge_trace(hist, recs2)
     for e in events:
